@@ -267,7 +267,7 @@ func (sk *SpaceKeeper) PlotWS(sid string) error {
 	// registered -> ready
 	// TODO: check for existence in plotterQueue
 	if ws, ok := sk.workSpaceIndex[engine.Registered].Get(sid); ok {
-		sk.newQueuedWorkSpaceCh <- newQueuedWorkSpace(ws, false)
+		sk.handOff(newQueuedWorkSpace(ws, false))
 		return nil
 	}
 
@@ -285,6 +285,18 @@ func (sk *SpaceKeeper) PlotWS(sid string) error {
 	// ready -> ready
 	// mining -> mining
 	return nil
+}
+
+// handOff passes a request to the plotter without ever blocking: callers hold the
+// state lock, which the plotter needs to finish the space it is working on. The
+// hand-off channel is only full while the plotter is busy (or not running), and then
+// it looks at the queue again before it waits on the channel.
+func (sk *SpaceKeeper) handOff(qws *queuedWorkSpace) {
+	select {
+	case sk.newQueuedWorkSpaceCh <- qws:
+	default:
+		sk.queue.Push(qws, qws.priority())
+	}
 }
 
 // MineWS should make workSpace state conversion happen like:
@@ -306,7 +318,7 @@ func (sk *SpaceKeeper) MineWS(sid string) error {
 	// registered -> plotting -> mining
 	// TODO: check for existence in plotterQueue
 	if ws, ok := sk.workSpaceIndex[engine.Registered].Get(sid); ok {
-		sk.newQueuedWorkSpaceCh <- newQueuedWorkSpace(ws, true)
+		sk.handOff(newQueuedWorkSpace(ws, true))
 		return nil
 	}
 
